@@ -1198,7 +1198,12 @@ class DiskRefsContainer(RefsContainer):
         f = GitFile(filename, "wb")
         try:
             f.write(SYMREF + other + b"\n")
-            sha = self.follow(name)[-1]
+            try:
+                sha = self.follow(name)[-1]
+            except SymrefLoop:
+                # Only needed for the reflog entry; the ref being replaced
+                # may itself be part of a loop
+                sha = None
             self._log(
                 name,
                 sha,
